@@ -789,6 +789,14 @@ class Lib:
         val = coerce(v if isinstance(v, SV) else lift(v, recv.typ.args[1]), recv.typ.args[1])
         return map_mk(recv.typ, z3.Store(map_dom(recv), key.t, True), z3.Store(map_val(recv), key.t, val.t))
 
+    def _loop_target_aliases(self, I, target, scope):
+        """the loop variable of `for x in containers` is a reference to an element: an in-place change through it is not tracked -> undecided"""
+        names = [target] if isinstance(target, ast.Name) else [t for t in ast.walk(target) if isinstance(t, ast.Name)]
+        for t in names:
+            v = scope.lookup(t.id) if scope.has(t.id) else None
+            if isinstance(v, SV) and v.typ.kind in ('Seq', 'Set', 'Map'):
+                scope.aliases[t.id] = {'unknown': 'a loop variable bound to an element of the iterated collection', 'base_txt': '?', 'key': None, 'stale': False}
+
     def write_back(self, I, node, new, scope, _via=None, _how=None):
         '''value-semantics containers: store the updated value where it came from (and through path aliases).
         _how = ('rebind', key): base[key] now holds another object; ('mutate', key): the object at base[key] was changed in place'''
@@ -1375,6 +1383,7 @@ class Lib:
                 broke = False
                 for x in list(it):
                     I.assign(st.target, x, scope)
+                    self._loop_target_aliases(I, st.target, scope)
                     try:
                         I.exec_block(st.body, scope)
                     except _Break:
@@ -1605,8 +1614,10 @@ class Lib:
                 if isinstance(it, SMapItems):
                     v = SV(it.m.typ.args[1], map_val(it.m)[x.t])
                     I.assign(st.target, {'items': (x, v), 'keys': x, 'values': v}[it.which], scope)
+                    self._loop_target_aliases(I, st.target, scope)
                 else:
                     I.assign(st.target, x, scope)
+                    self._loop_target_aliases(I, st.target, scope)
                 nxt = SV(full.typ, z3.Store(done.t, x.t, True))
             else:
                 k = I.fresh(INT, g)
